@@ -1089,7 +1089,20 @@ impl Prop for C18 {
         let mut sig = Sig::new();
         let mut nontrivial = false;
         let positions: Vec<usize> = match case.kill_at {
-            Some(usize::MAX) => (0..=case.steps.len()).collect(),
+            // systematic sweep: every position of a short history; for long ones (marathon / churn
+            // histories) 80 evenly spaced positions plus the last 20, so that the cost stays linear
+            Some(usize::MAX) => {
+                let n = case.steps.len();
+                if n <= 200 {
+                    (0..=n).collect()
+                } else {
+                    let mut v: Vec<usize> = (0..80).map(|k| k * n / 80).collect();
+                    v.extend(n - 20..=n);
+                    v.sort_unstable();
+                    v.dedup();
+                    v
+                }
+            }
             Some(k) => vec![k],
             None => vec![],
         };
